@@ -547,13 +547,22 @@ func addC10Case(run *Run, kind, text string, t, a, b *Val) {
 // ---------------------------------------------------------------------------------------------
 // C11 — RFC 7386 output means the same as the merge diff
 func propC11(run *Run, n int) {
-	run.rule = "null-free (a,b), a != b, incl. key removal at depth, object<->scalar<->array type changes, empty objects x {MERGE, SET+MERGE, MULTISET+MERGE}; non-trivial = the diff is non-empty; distinct = distinct (options, a, b)"
+	run.rule = "null-free (a,b), a != b, incl. key removal at depth, object<->scalar<->array type changes, empty objects x {MERGE, SET+MERGE, MULTISET+MERGE, SetKeys(id)+MERGE on keyed arrays}; non-trivial = the diff is non-empty; distinct = distinct (options, a, b)"
 	r := NewRng(run.Seed)
-	opts := []OptSet{OptMerge, OptSetMrg, OptMsetMrg}
+	opts := []OptSet{OptMerge, OptSetMrg, OptMsetMrg, OptKeysMrg("id")}
 	for i := 0; i < n; i++ {
 		cfg := fmtCfg(r)
 		cfg.AllowNull = false
 		o := opts[r.Intn(len(opts))]
+		if len(o.KeysOf()) > 0 {
+			// SetKeys + MERGE: arrays of objects identified by "id" (identities pairwise distinct within an
+			// array), members that keep their identity and change elsewhere
+			cfg = DefaultCfg()
+			cfg.AllowNull = false
+			cfg.SetKeys = o.KeysOf()
+			cfg.Keys = []string{"a", "id", "x", "t"}
+			cfg.ScalarBias = 3
+		}
 		a, b := cfg.Pair(r)
 		if a.K == KVoid || b.K == KVoid {
 			continue
